@@ -249,6 +249,48 @@ class Cell:
         return int(self.rec["position"].shape[0])
 
 
+def _simple(x: float) -> bool:
+    """Multiple of 2**-6 below 2**10: sums, squares and their roots are exact in doubles."""
+    return abs(x) < 1024 and float(x * 64).is_integer()
+
+
+def _gap_cmp(c1: "Cell", c2: "Cell", md: float, period: float | None) -> str:
+    """Compare the surface distance of two droplets with `md`: 'lt', 'ge' or 'unknown'.
+
+    Own metric (Euclidean, or minimum image in the periodic box [-period/2, period/2)^d).
+    A decision closer than 1e-9 to the threshold is only made when every quantity is a small
+    dyadic number and the centre distance is rational, i.e. when any correct floating-point
+    formula gives the exact result (ties included); otherwise it is 'unknown'.
+    """
+    import fractions
+
+    p1 = [float(v) for v in c1.rec["position"]]
+    p2 = [float(v) for v in c2.rec["position"]]
+    r1, r2 = c1.radius, c2.radius
+    delta = []
+    for a, b in zip(p1, p2):
+        d = a - b
+        if period is not None:
+            d = (d + period / 2) % period - period / 2
+            d = min(abs(d), period - abs(d))
+        delta.append(d)
+    gap = math.sqrt(sum(d * d for d in delta)) - (r1 + r2)
+    if not math.isfinite(gap):
+        return "unknown"
+    if abs(gap - md) > 1e-9 * (1 + abs(gap) + abs(md)):
+        return "lt" if gap < md else "ge"
+    vals = p1 + p2 + [r1, r2, md]
+    if not all(_simple(v) for v in vals):
+        return "unknown"
+    sq = sum(fractions.Fraction(d) ** 2 for d in delta)
+    num, den = sq.numerator, sq.denominator
+    rn, rd = math.isqrt(num), math.isqrt(den)
+    if rn * rn != num or rd * rd != den:
+        return "unknown"  # irrational distance that close to the threshold: do not decide
+    exact = fractions.Fraction(rn, rd) - fractions.Fraction(r1) - fractions.Fraction(r2)
+    return "lt" if exact < fractions.Fraction(md) else "ge"
+
+
 class MEm:
     def __init__(self, cells=None, dtype=None):
         self.cells: list[Cell] = list(cells or [])
@@ -714,6 +756,30 @@ def run_op(M: Machine, step: int, op: dict) -> str | None:
                 M.viol("C20.O1", f"step {step}: remove_overlapping produced a member that is not a "
                        f"previous member in the previous order", op=k, kind="not_subsequence")
                 return None
+        # list-model rule of "remove overlaps" (ties decided exactly, rounding-level cases skipped):
+        # no surviving pair is closer than min_distance, and every removed member was closer
+        # than min_distance to a member at least as large
+        period = 64.0 if "grid" in kw else None
+        md = op["min_distance"]
+        cells = m.cells
+        keep = set(idx)
+        for a in range(len(idx)):
+            for b in range(a + 1, len(idx)):
+                if _gap_cmp(cells[idx[a]], cells[idx[b]], md, period) == "lt":
+                    M.viol("C20.O1", f"step {step}: after remove_overlapping(min_distance={md}) "
+                           f"members {idx[a]} and {idx[b]} are still closer than min_distance",
+                           op=k, kind="still_overlapping")
+                    break
+        for j in range(len(cells)):
+            if j in keep:
+                continue
+            if not any(o != j and cells[o].radius >= cells[j].radius and
+                       _gap_cmp(cells[j], cells[o], md, period) != "ge" for o in range(len(cells))):
+                M.viol("C20.O1", f"step {step}: remove_overlapping(min_distance={md}) removed member "
+                       f"{j} although it is not closer than min_distance to any member at least "
+                       f"as large", op=k, kind="removed_separated")
+                break
+        M.cnt.inc("probe.remove_overlapping_removed", len(cells) - len(idx))
         m.cells = [m.cells[j] for j in idx]
         return None
 
